@@ -365,3 +365,142 @@ def run_extent(ctx, source, given):
             f.cleanup()
     ctx.count(states=n)
     return n
+
+
+# =================================================================================================
+# OPTION cells - keyword options of the writers (dump / dumps take **kwargs and hand them to the codec)
+# =================================================================================================
+import inspect  # noqa: E402
+
+OPTION_TARGETS = ("str", "stringio", "stream", "pathstr", "Path")
+UNKNOWN_OPTION = {"no_such_codec_option": 1}
+
+
+def option_sets(obj, method_name):
+    """{} is the matrix itself; here: every parameter the class method takes beyond the stream with every
+    non-default value of its type, all of them together, and one keyword it does not know"""
+    meth = getattr(obj, method_name)
+    sets = []
+    allopts = {}
+    for pname, par in inspect.signature(meth).parameters.items():
+        if pname in ("self", "stream", "output") or par.kind in (par.VAR_KEYWORD, par.VAR_POSITIONAL):
+            continue
+        d = par.default
+        if isinstance(d, bool):
+            vals = [not d]
+        elif isinstance(d, str):
+            vals = ["10.3f", "16.8e"] if "f" in d or "e" in d else [d + "_x"]
+        elif isinstance(d, int):
+            vals = [d + 1]
+        elif isinstance(d, float):
+            vals = [d * 2 + 1]
+        else:
+            continue
+        for v in vals:
+            sets.append({pname: v})
+        allopts[pname] = vals[0]
+    if len(allopts) > 1:
+        sets.append(dict(allopts))
+    return sets
+
+
+def option_cells(order):
+    def rot(t):
+        r = order % len(t)
+        return t[r:] + t[:r]
+
+    for fmt in rot(("xyz", "mol2")):
+        for obj in rot(M.OBJKINDS):
+            for target in rot(OPTION_TARGETS):
+                for mode in M.MODES if target in ("pathstr", "Path") else ("a",):
+                    yield {"op": "options", "func": "dumps" if target == "str" else "dump", "fmt": fmt, "kind": target, "otype": obj, "mode": mode}
+
+
+def _codec_options(fmt, objkind):
+    """the union of the options any class method of this format knows (so that an option dump_xyz takes
+    and dumps_xyz does not is also tried on dumps, where the class method answers with TypeError)"""
+    out = []
+    cls = {"Molecule": ml.Molecule, "Structure": ml.Structure, "ConformerEnsemble": ml.ConformerEnsemble}[objkind]
+    for c in (cls, ml.Molecule):
+        for mname in (f"dump_{fmt}", f"dumps_{fmt}"):
+            for o in option_sets(c, mname):
+                if o not in out:
+                    out.append(o)
+    return out + [dict(UNKNOWN_OPTION)]
+
+
+def run_option_cell(ctx, fam, cell, given):
+    func, fmt, kind = cell["func"], cell["fmt"], cell["kind"]
+    obj = M.make_object(fam, cell["otype"], "none", given)
+    if obj is None:
+        ctx.add_note("option_cells_skipped_object_not_loadable")
+        return
+    # a codec option whose name is a parameter of the entry point itself (dump_xyz(fmt=...) is a number
+    # format, ml.dump(fmt=...) the file format) cannot be expressed through the entry point at all
+    own = set(inspect.signature(getattr(ml, func)).parameters)
+    for opts in _codec_options(fmt, cell["otype"]):
+        if own & set(opts):
+            ctx.add_note("option_sets_not_expressible_(name_taken_by_the_entry_point)")
+            continue
+        _one_option(ctx, fam, cell, given, obj, opts)
+
+
+def _one_option(ctx, fam, cell, given, obj, opts):
+    func, fmt, kind = cell["func"], cell["fmt"], cell["kind"]
+    case = {"family": list(fam.spec), "cell": dict(cell, options=opts), "given": given}
+    key = (fam.name, tuple(sorted((k, str(v)) for k, v in cell.items())), tuple(sorted(opts.items())))
+    oname = "+".join(sorted(opts))
+
+    def viol(symptom, what):
+        ctx.violation(f"{func}|{fmt}|{M.kindclass(kind)}|{M.oclass(cell['otype'])}|options={oname}:{symptom}", f"ml.{func}({cell['otype']} -> {kind}, {fmt!r}, **{opts}): {what}", case)
+
+    ctx.count(evaluations=1, transitions=2, traces=1, states=1)
+    if func == "dumps":
+        exp = M.outcome_of(lambda: getattr(obj, f"dumps_{fmt}")(**opts))
+        got = M.outcome_of(lambda: ml.dumps(obj, fmt, **opts))
+        content = got[1] if got[0] == "ok" else None
+        want = exp[1] if exp[0] == "ok" else None
+    else:
+        buf = io.StringIO()
+        exp = M.outcome_of(lambda: getattr(obj, f"dump_{fmt}")(buf, **opts))
+        want = None
+        root = fam.dir / "options"
+        root.mkdir(exist_ok=True)
+        p = root / f"target.{fmt}"
+        p.write_text(M.PREFIX)
+        stream = None
+        if kind == "stringio":
+            stream = target = io.StringIO()
+            stream.write(M.PREFIX)
+        elif kind == "stream":
+            stream = target = open(p, "a")
+        else:
+            target = str(p) if kind == "pathstr" else Path(p)
+        try:
+            got = M.outcome_of(lambda: ml.dump(obj, target, fmt, mode=cell["mode"], **opts))
+            if exp[0] == "ok":
+                want = (M.PREFIX if (stream is not None or cell["mode"] == "a") else "") + buf.getvalue()
+            content = None
+            if got[0] == "ok":
+                if kind == "stringio":
+                    content = stream.getvalue()
+                else:
+                    if stream is not None:
+                        stream.flush()
+                    content = p.read_text()
+        finally:
+            if stream is not None and not stream.closed:
+                stream.close()
+    ctx.outcome(("options", oname, got[0], got[1] if got[0] == "exc" else None))
+    if exp[0] == "exc":
+        if got[0] == "ok":
+            viol(f"returned-but-class-method-raised-{exp[1]}", f"the option was accepted; obj.{func}_{fmt}(**options) {M.describe(exp)}")
+        elif got[1] != exp[1]:
+            viol(f"raised-{got[1]}", f"{M.describe(got)}; obj.{func}_{fmt}(**options) {M.describe(exp)}")
+        return
+    if got[0] == "exc":
+        viol(f"raised-{got[1]}", f"{M.describe(got)}; obj.{func}_{fmt}(**options) works")
+        return
+    ctx.nontrivial(key)
+    if content != want:
+        viol("text-differs-from-class-method", f"{len(content or '')} characters written / returned; obj.{func}_{fmt}(**options) gives {len(want or '')} (the option was not handed to the codec?)")
